@@ -47,7 +47,7 @@ func Reduce(slice Slice, reduce interface{}) Slice {
 		typecheck.Panic(1, err.Error())
 	}
 	fn, ok := slicefunc.Of(reduce)
-	if !ok {
+	if !ok || fn.IsVariadic {
 		typecheck.Panicf(1, "reduce: invalid reduce function %T", reduce)
 	}
 	outputType := slice.Out(slice.NumOut() - 1)
